@@ -10,7 +10,7 @@ from .session_replay import Injected, SessionReplayer, pval
 # constants of the specification that mirror the code (flip together with the code)
 CODE = {"Finally": True, "ExactRestore": True, "RawSave": True, "KeyedGraph": True}
 
-ATOMIC = {"StartPartialWeight": "partial_weight", "StartInterference": "partial_weight_interference", "StartFitFractions": "fit_fractions"}
+ATOMIC = {"StartPartialWeight": "partial_weight", "StartInterference": "partial_weight_interference", "StartFitFractions": "fit_fractions", "StartPlotWeights": "plot_weights"}
 ENTER = {
     "EnterTempParamsAmp": "temp_params_amp",
     "EnterTempParamsVM": "temp_params_vm",
@@ -114,7 +114,7 @@ def execute(rep, path, check_calls=True):
                     if exc is not None:
                         raise AssertionError("unexpected fault")
                 elif end == "Raise":
-                    fault_at = k + 1 if kind == "fit_fractions" else k
+                    fault_at = k + 1 if kind in ("fit_fractions", "plot_weights") else k
                     exc = rep.run_computation(kind, args if args else None, fault_at)
                     if exc is None:
                         out.fails.append(("Machinery", j, "fault %d was never reached in %s" % (fault_at, kind)))
